@@ -378,6 +378,23 @@ def gen_case(rng, small=False):
     elif r < 0.48:
         labels = []
         flavour.append('empty-labels')
+    # magnitude / pedestal axis: the same scene as raw counts on a bias level, in other units, and in
+    # single precision.  The segmentation is kept, so the parents are the same; any difference in
+    # floating-point precision between two execution paths (serial / worker processes) shows up
+    # as serial != parallel on these
+    if kind in ('gauss', 'multi', 'faint', 'interlock', 'clusters', 'ridge') and rng.random() < 0.45:
+        amp = rng.choice([1, 1, 0.1, 0.01])
+        ped = rng.choice([0, 1.0e3, 1.0e5, 1.0e7, 1.0e7])
+        sc = rng.choice([1, 1, 2.0 ** 40, 2.0 ** -40])
+        data = (np.asarray(data, float) * amp + ped) * sc
+        flavour.append(f'pedestal={ped:g}')
+        if amp != 1:
+            flavour.append(f'amplitude={amp:g}')
+        if sc != 1:
+            flavour.append('scaled-2^40' if sc > 1 else 'scaled-2^-40')
+    if rng.random() < 0.12:
+        data = np.asarray(data).astype(np.float32)
+        flavour.append('float32-input')
     return dict(kind=kind, flavour=flavour, data=data, seg=seg, npix=npix, nlevels=nlevels,
                 contrast=contrast, mode=mode, conn=conn, relabel=relabel, labels=labels,
                 redeblend=rng.random() < 0.08)
@@ -697,7 +714,7 @@ def independence(case, picks, orders):
 # --------------------------------------------------------------------------
 def describe(case):
     d = case['data']
-    return {'data': d.tolist(), 'seg': case['seg'].astype(object).astype(int).tolist() if case['seg'].dtype == np.uint64
+    return {'data': d.tolist(), 'data_dtype': str(d.dtype), 'seg': case['seg'].astype(object).astype(int).tolist() if case['seg'].dtype == np.uint64
             else case['seg'].astype(np.int64).tolist(),
             'dtype': str(case['seg'].dtype), 'npixels': int(case['npix']), 'nlevels': int(case['nlevels']),
             'contrast': case['contrast'], 'mode': case['mode'], 'connectivity': int(case['conn']),
@@ -707,7 +724,7 @@ def describe(case):
 
 
 def undescribe(c):
-    return dict(kind='replay', flavour=[], data=np.array(c['data'], float),
+    return dict(kind='replay', flavour=[], data=np.array(c['data'], float).astype(c.get('data_dtype', 'float64')),
                 seg=np.array(c['seg'], dtype=object).astype(c['dtype']),
                 npix=c['npixels'], nlevels=c['nlevels'], contrast=c['contrast'], mode=c['mode'],
                 conn=c['connectivity'], relabel=c['relabel'], labels=c['labels'],
@@ -743,6 +760,7 @@ def run(ctx):
         'with ~1% companions that split only under exponential/sinh levels next to segments containing one planted '
         'zero/negative pixel (per-source fallback to linear), blends on parallel diagonals with interlocking '
         'bounding boxes, clusters, '
+        'the same scenes on pedestals 0/1e3/1e5/1e7 with amplitudes 1/0.1/0.01, scaled by 2^+-40, float32 inputs, '
         'plateaus, ridges with saddles, noise, hand-made segmentations incl. disconnected parents) -> '
         'detect_sources or hand labels; label gaps and '
         'non-raster label order, tiny segments, merged labels, 8 integer dtypes, labels at the dtype maximum, '
@@ -884,7 +902,8 @@ def run(ctx):
     for case in cases:
         if nsf >= (15 if quick else 100):
             break
-        if case['kind'] in ('hand', 'directed') or case['mode'] == 'bad' or case['nlevels'] < 1 \
+        if case['kind'] in ('hand', 'directed') or any(f.startswith('pedestal') for f in case['flavour']) \
+                or case['mode'] == 'bad' or case['nlevels'] < 1 \
                 or not (0 <= case['contrast'] <= 1):
             continue
         nsf += 1
